@@ -90,6 +90,13 @@ def run(ctx):
         steps.append('R%d' % left)
         sc = ';'.join(steps)
         flines.append('flush 4 %d %d lzma2:dict=4KiB %s %s' % (rng.choice([0, 1, 4, 10]) << 8, rng.randrange(1 << 20), sc, d.hex())); fmeta.append((d, 'stream_encoder history ' + sc, 'xz'))
+    # directed: a full flush, then a call that leaves the next Block Header partly written (1..13 bytes of output space),
+    # then an update request (which must be refused or must not disturb the header already started), then the rest
+    for j_ in (1, 2, 3, 5, 8, 11, 13):
+        for upd in ('Ulzma2:dict=64KiB', 'Udelta:dist=2+lzma2:dict=4KiB', 'Ulzma2:dict=4KiB,lc=1,lp=1,pb=1'):
+            d = (xzgen.gen_data(rng, 200) * 7)[:1200]; k = rng.randrange(1, 600)
+            sc = 'F%d;T%d;%s;R%d' % (k, j_, upd, len(d) - k)
+            flines.append('flush 4 %d %d lzma2:dict=4KiB %s %s' % (rng.choice([0, 1, 4, 10]) << 8, rng.randrange(1 << 20), sc, d.hex())); fmeta.append((d, 'stream_encoder history ' + sc, 'xz'))
     fouts, ff = run_lines(fl, flines)
     for f in ff: ctx.violation('encoder crashed in a flush history', {'line': (f[0] or '')[:20000], 'stderr': f[1], 'kind': 'crash'})
     hist_out = []
